@@ -17,12 +17,25 @@ func streamWorld(c *core.Ctx, nframes int, produce func(k int) [][]byte, deliver
 	loop := core.NewLoop(c, 200000)
 	pool := newRxPool(c, 1+t.Intn(3))
 	w := newWire(c, loop, drawWireCfg(t, "clean"), func(d datagram) { deliver(d, pool.put(d.b)) })
+	var prev, prevSnap [][]byte
 	var send func(k int)
 	send = func(k int) {
 		if k >= nframes {
 			return
 		}
 		ps := produce(k)
+		// what the previous call returned belongs to the caller (retransmission buffers keep it):
+		// a later call on the same payloader must not change it
+		for i := range prev {
+			if !bytes.Equal(prev[i], prevSnap[i]) {
+				c.Violate("ownership", c.Property+"/returned-payloads-changed-by-later-call", "payload %d returned by call %d changed when call %d was made on the same payloader", i, k-1, k)
+				break
+			}
+		}
+		prev, prevSnap = ps, make([][]byte, len(ps))
+		for i, p := range ps {
+			prevSnap[i] = append([]byte{}, p...)
+		}
 		for i, p := range ps {
 			w.Send(datagram{frame: k, idx: i, marker: i == len(ps)-1, b: p})
 		}
@@ -115,7 +128,26 @@ func runC11(c *core.Ctx) {
 		}
 	}
 	var sizeFP []uint64
+	emitted := 0             // frames that actually went out: the running picture id counts those
+	frameID := map[int]int{} // frame index -> expected running id (lookup only, never iterated)
+	frameHasID := map[int]bool{}
+	varying := !wrap && !jumbo && t.Chance(1, 4) // histories that mix usable and unusable MTUs and flip EnablePictureID
+	baseMTU := mtu
 	world(c, nframes, func(k int) [][]byte {
+		if varying {
+			mtu = baseMTU
+			switch t.Weighted(6, 1, 1) {
+			case 1:
+				mtu = t.Intn(5) // at or below the descriptor size for some id forms: nothing can be sent
+			case 2:
+				mtu = baseMTU + t.Intn(9)
+			}
+			if t.Chance(1, 6) {
+				picID = !picID
+				pay.EnablePictureID = picID
+				c.Probe("picture-id-option-toggled")
+			}
+		}
 		var f []byte
 		if wrap {
 			f = []byte{byte(k)}
@@ -124,7 +156,7 @@ func runC11(c *core.Ctx) {
 		} else {
 			f = t.Bytes(nalSize(t, mtu, 1, []int{1, 3, 4}[t.Intn(3)])) // multiples of the fragment size for each descriptor size
 		}
-		if len(sizeFP) < 6 {
+		if len(sizeFP) < 6 && mtu > 1 {
 			sizeFP = append(sizeFP, uint64((len(f)+mtu-2)/(mtu-1)))
 		}
 		frames = append(frames, f)
@@ -139,8 +171,22 @@ func runC11(c *core.Ctx) {
 				c.Violate("mtu", "C11/payload-exceeds-mtu", "payload of %d bytes at MTU %d", len(p), mtu)
 			}
 		}
-		if len(ps) == 0 {
+		hdr := 1
+		if picID && emitted > 0 {
+			hdr = 3
+			if emitted&0x7FFF >= 128 {
+				hdr = 4
+			}
+		}
+		if len(ps) == 0 && mtu > hdr {
 			c.Violate("lossless", "C11/no-payload-for-frame", "frame %d (%d bytes) produced no payload at MTU %d", k, len(f), mtu)
+		}
+		if len(ps) == 0 {
+			c.Probe("unusable-mtu-call")
+		}
+		frameID[k], frameHasID[k] = emitted&0x7FFF, picID
+		if len(ps) > 0 {
+			emitted++
 		}
 		return ps
 	}, func(d datagram, buf []byte) {
@@ -169,8 +215,8 @@ func runC11(c *core.Ctx) {
 			c.Violate("shape", "C11/shape/partition-index", "PID=%d", rx.PID)
 			return
 		}
-		if picID {
-			running = d.frame & 0x7FFF
+		if frameHasID[d.frame] {
+			running = frameID[d.frame]
 			if int(rx.PictureID) != running {
 				c.Violate("picture-id", "C11/picture-id/value", "frame %d packet %d carries picture id %d, running id is %d", d.frame, d.idx, rx.PictureID, running)
 				return
@@ -189,7 +235,7 @@ func runC11(c *core.Ctx) {
 				c.Probe("picid-127-to-128")
 				formChange = true
 			}
-			if d.frame == 32768 && first {
+			if d.frame == 32768 && first && !varying {
 				c.Probe("picid-wrap-32767-to-0")
 				formChange = true
 			}
